@@ -502,6 +502,20 @@ func (fc *FnCtx) havocWrites(st *State, ws map[string]bool) {
 func (fc *FnCtx) applyContract(fr *Frame, st *State, instr ssa.Instruction, spec *FuncSpec, callee *ssa.Function,
 	sig *types.Signature, bindings []Val, args []Val, rt types.Type, pos token.Pos) Val {
 	env := fc.calleeEnv(spec, callee, sig, args)
+	// a closure's contract refers to its captured variables by name: bind their current values
+	if callee != nil {
+		for i, fv := range callee.FreeVars {
+			if i >= len(bindings) {
+				break
+			}
+			elem := fv.Type().(*types.Pointer).Elem()
+			if _, isS := isStructVal(elem); isS && namedPath(elem) != "time.Time" {
+				env.bind(fv.Name(), bindings[i], elem)
+			} else if _, isSig := unalias(elem).Underlying().(*types.Signature); !isSig {
+				env.bind(fv.Name(), fc.load(st, bindings[i], elem, instr), elem)
+			}
+		}
+	}
 	// results of the callee's internal calls named by its contract: unknown values here
 	for _, g := range spec.Ghosts {
 		gs := SErr
@@ -521,7 +535,25 @@ func (fc *FnCtx) applyContract(fr *Frame, st *State, instr ssa.Instruction, spec
 		if k := strings.LastIndex(short, "."); k >= 0 {
 			short = short[k+1:]
 		}
-		fc.obligeClause(st, "call", fmt.Sprintf("%s:pre:%s", short, clauseLabel(rq, i)), t, rq, pos)
+		// a precondition tagged for one property must still be checked at call sites inside functions
+		// that only serve other properties: it belongs to the callee's properties AND the caller's
+		// A precondition tagged [P] is checked when property P is checked, which only happens if the CALLER
+		// serves P. A call site in a function that does not serve P would silently escape: it is recorded
+		// (govc -uncovered lists them; the contracts are kept free of such sites). The tag `local` marks
+		// property-specific instrumentation that deliberately applies to P's own functions only.
+		rq2 := rq
+		if len(rq.Tags) > 0 && fc.spec != nil && !hasProp(rq.Tags, "local") {
+			served := false
+			for _, p := range fc.spec.Props {
+				if hasProp(rq.Tags, p) {
+					served = true
+				}
+			}
+			if !served {
+				fc.eng.uncovered[fmt.Sprintf("%s calls %s: precondition %v %s is not checked (caller serves %v)", fc.name, spec.Target, rq.Tags, clauseLabel(rq, i), fc.spec.Props)] = true
+			}
+		}
+		fc.obligeClause(st, "call", fmt.Sprintf("%s:pre:%s", short, clauseLabel(rq, i)), t, rq2, pos)
 	}
 	// modifies
 	ws := map[string]bool{}
